@@ -163,8 +163,9 @@ def history_case(draw):
         c = dict(prev, kind=kind)
         if kind == "fragment":
             n = len(base["q"])
-            a = draw(st.integers(0, n - 1))
-            b = draw(st.integers(a, n - 1))
+            # a head or a tail of the molecule, as AlignmentResultRow.getUnalignedFragments builds them
+            cut = draw(st.integers(0, n - 1))
+            a, b = (0, cut) if draw(st.booleans()) else (cut, n - 1)
             c.update(q=base["q"][a:b + 1], shift=base["shift"] + a)
             if draw(st.booleans()):
                 c["rev"] = base["rev"]
